@@ -99,6 +99,30 @@ pub proof fn lemma_pow10_mono(a: nat, b: nat)
     }
 }
 
+/// re-association of a thirteen-fold concatenation
+#[verifier::spinoff_prover]
+pub proof fn lemma_flat7(f0: Seq<u8>, c0: u8, f1: Seq<u8>, c1: u8, f2: Seq<u8>, c2: u8, f3: Seq<u8>, c3: u8,
+                         f4: Seq<u8>, c4: u8, f5: Seq<u8>, c5: u8, last: Seq<u8>)
+    ensures f0 + seq![c0] + f1 + seq![c1] + f2 + seq![c2] + f3 + seq![c3] + f4 + seq![c4] + f5 + seq![c5] + last
+        == f0 + seq![c0] + (f1 + seq![c1] + (f2 + seq![c2] + (f3 + seq![c3] + (f4 + seq![c4] + (f5 + seq![c5] + last)))))
+{
+    let r5 = f5 + seq![c5] + last;
+    let r4 = f4 + seq![c4] + r5;
+    let r3 = f3 + seq![c3] + r4;
+    let r2 = f2 + seq![c2] + r3;
+    let r1 = f1 + seq![c1] + r2;
+    let a5 = f0 + seq![c0] + f1 + seq![c1] + f2 + seq![c2] + f3 + seq![c3] + f4 + seq![c4];
+    let a4 = f0 + seq![c0] + f1 + seq![c1] + f2 + seq![c2] + f3 + seq![c3];
+    let a3 = f0 + seq![c0] + f1 + seq![c1] + f2 + seq![c2];
+    let a2 = f0 + seq![c0] + f1 + seq![c1];
+    let a1 = f0 + seq![c0];
+    assert(a5 + f5 + seq![c5] + last =~= a5 + r5);
+    assert(a5 + r5 =~= a4 + r4);
+    assert(a4 + r4 =~= a3 + r3);
+    assert(a3 + r3 =~= a2 + r2);
+    assert(a2 + r2 =~= a1 + r1);
+}
+
 /// the seven pieces of  f0 c0 f1 c1 f2 c2 f3 c3 f4 c4 f5 c5 last
 pub proof fn lemma_split7(f0: Seq<u8>, c0: u8, f1: Seq<u8>, c1: u8, f2: Seq<u8>, c2: u8, f3: Seq<u8>, c3: u8,
                           f4: Seq<u8>, c4: u8, f5: Seq<u8>, c5: u8, last: Seq<u8>)
@@ -112,8 +136,7 @@ pub proof fn lemma_split7(f0: Seq<u8>, c0: u8, f1: Seq<u8>, c1: u8, f2: Seq<u8>,
     let r3 = f3 + seq![c3] + r4;
     let r2 = f2 + seq![c2] + r3;
     let r1 = f1 + seq![c1] + r2;
-    let w = f0 + seq![c0] + r1;
-    assert(w =~= f0 + seq![c0] + f1 + seq![c1] + f2 + seq![c2] + f3 + seq![c3] + f4 + seq![c4] + f5 + seq![c5] + last);
+    lemma_flat7(f0, c0, f1, c1, f2, c2, f3, c3, f4, c4, f5, c5, last);
     lemma_split_cons(f0, c0, r1, 7);
     lemma_split_cons(f1, c1, r2, 6);
     lemma_split_cons(f2, c2, r3, 5);
@@ -121,6 +144,13 @@ pub proof fn lemma_split7(f0: Seq<u8>, c0: u8, f1: Seq<u8>, c1: u8, f2: Seq<u8>,
     lemma_split_cons(f4, c4, r5, 3);
     lemma_split_cons(f5, c5, last, 2);
     assert(splitn_spec(last, 1) =~= seq![last]);
+    let s6 = seq![last];
+    let s5 = seq![f5] + s6;
+    let s4 = seq![f4] + s5;
+    let s3 = seq![f3] + s4;
+    let s2 = seq![f2] + s3;
+    let s1 = seq![f1] + s2;
+    assert(seq![f0] + s1 =~= seq![f0, f1, f2, f3, f4, f5, last]);
 }
 
 /// conversely: a line with seven pieces is those pieces joined by six separator bytes
@@ -352,4 +382,141 @@ pub proof fn lemma_accepted_tcp6_wf(w: Seq<u8>, x: crate::ip::IPv6)
     assert(w =~= tcp6_line(a, b, p, q));
     assert(ipv6_text(a) == Some(x.source_address) && ipv6_text(b) == Some(x.destination_address));
     assert(dec_value(p) == x.source_port && dec_value(q) == x.destination_port);
+}
+
+// [props: C01 C08]
+/// (statement ==> verdict) `PROXY UNKNOWN`, optionally a space and any text without CR, CRLF
+pub proof fn lemma_unknown_line_accepted(l: Seq<u8>)
+    requires unknown_line(l), l.len() <= 107
+    ensures line_verdict(l) == V1V::Accept(V1Addresses::Unknown)
+{
+    lemma_keywords_no_sep();
+    let head = b_proxy() + sp() + b_unknown();
+    let n = l.len() as int;
+    if l =~= head + b_crlf() {
+        let m = b_proxy() + seq![32u8] + (b_unknown() + seq![13u8] + seq![10u8]);
+        assert(l =~= m);
+        lemma_split_cons(b_proxy(), 32u8, b_unknown() + seq![13u8] + seq![10u8], 7);
+        lemma_split_cons(b_unknown(), 13u8, seq![10u8], 6);
+        lemma_split_len(seq![10u8], 5);
+    } else {
+        let t = choose|t: Seq<u8>| #![auto] l =~= head + sp() + t + b_crlf() && (forall|i: int| 0 <= i < t.len() ==> t[i] != 13u8);
+        let rest = t + b_crlf();
+        let m = b_proxy() + seq![32u8] + (b_unknown() + seq![32u8] + rest);
+        assert(l =~= m);
+        lemma_split_cons(b_proxy(), 32u8, b_unknown() + seq![32u8] + rest, 7);
+        lemma_split_cons(b_unknown(), 32u8, rest, 6);
+        lemma_split_len(rest, 5);
+    }
+    let parts = splitn_spec(l, 7);
+    assert(parts[0] =~= b_proxy() && parts[1] =~= b_unknown() && parts.len() >= 2);
+    assert(l[n - 1] == 10u8 && l[n - 2] == 13u8);
+    assert(is_suffix_of(b_crlf(), l)) by { assert(l.subrange(n - 2, n) =~= b_crlf()); }
+    assert(!is_suffix_of(b_proxy(), l)) by {
+        if is_suffix_of(b_proxy(), l) { assert(l.subrange(n - 5, n)[4] == l[n - 1]); }
+    }
+    assert(!(parts[1] =~= b_tcp4()) && !(parts[1] =~= b_tcp6()));
+}
+
+// [props: C01]
+/// (verdict ==> statement) an accepted UNKNOWN window has the statement's form
+pub proof fn lemma_accepted_unknown_wf(w: Seq<u8>)
+    requires line_verdict(w) == V1V::Accept(V1Addresses::Unknown), first_index_of(w, 13u8) + 2 == w.len()
+    ensures unknown_line(w), w.len() <= 107
+{
+    broadcast use crate::prelude::prelude_str_axioms;
+    lemma_accept_shape(w);
+    lemma_first_index_bounds(w, 13u8);
+    let n = w.len() as int;
+    let head = b_proxy() + sp() + b_unknown();
+    assert(w[5] == 32u8);
+    assert(w.subrange(0, 13) =~= head) by {
+        assert forall|i: int| 0 <= i < 13 implies w.subrange(0, 13)[i] == head[i] by {
+            if i < 5 { assert(w.subrange(0, 5)[i] == w[i]); }
+            else if i > 5 { assert(w.subrange(6, 13)[i - 6] == w[i]); }
+        }
+    }
+    assert(w[n - 2] == 13u8 && w[n - 1] == 10u8) by { assert(w.subrange(n - 2, n)[0] == 13u8 && w.subrange(n - 2, n)[1] == 10u8); }
+    if n == 15 {
+        assert(w =~= head + b_crlf());
+    } else {
+        assert(w[13] == 32u8);
+        let t = w.subrange(14, n - 2);
+        assert(w =~= head + sp() + t + b_crlf());
+        assert forall|i: int| 0 <= i < t.len() implies t[i] != 13u8 by { assert(t[i] == w[14 + i]); }
+    }
+}
+
+/// an accepted line is a window: it ends with the only CR it contains, followed by LF
+pub proof fn lemma_accept_is_terminated(s: Seq<u8>)
+    requires entry_verdict_str(s) is Accept
+    ensures v1_terminated(s), first_index_of(v1_window(s), 13u8) + 2 == v1_window(s).len(),
+        header_verdict(v1_window(s)) == entry_verdict_str(s), line_verdict(v1_window(s)) == entry_verdict_str(s),
+        v1_window(s).len() == first_index_of(s, 13u8) + 2
+{
+    broadcast use crate::prelude::prelude_str_axioms;
+    let w = v1_window(s);
+    lemma_first_index_bounds(s, 13u8);
+    lemma_accept_shape(w);
+    let n = w.len() as int;
+    assert(w[n - 2] == 13u8) by { assert(w.subrange(n - 2, n)[0] == 13u8); }
+    let cr = first_index_of(s, 13u8);
+    // the window contains a CR, so the input does, and the window is s[..cr+2]
+    if cr >= s.len() {
+        assert(w =~= s);
+        assert(s[n - 2] == 13u8);
+        assert(false);
+    }
+    lemma_first_index_prefix(s, n, 13u8);
+    if cr + 2 > s.len() {
+        // window == s and its CR is the last byte: it cannot end with CRLF
+        assert(n == s.len());
+        assert(w[n - 1] == 10u8) by { assert(w.subrange(n - 2, n)[1] == 10u8); }
+        assert(s[cr] == 13u8);
+        assert(false);
+    }
+}
+
+// [props: C01]
+/// C01 for the text entry point, from the clauses Verus proves on `try_from(&str)`:
+/// success iff the input starts with a well-formed line (ended by its first CR followed by LF);
+/// the header text is that line and the addresses are the ones written
+pub proof fn lemma_c01_text(s: Seq<u8>, r: Result<V1Header, V1Error>)
+    requires
+        vstd::utf8::valid_utf8(s),
+        r is Ok <==> entry_verdict_str(s) is Accept,
+        r is Ok ==> realises(v1_window(s), r, entry_verdict_str(s)),
+    ensures c01_post(s, r)
+{
+    broadcast use crate::prelude::prelude_str_axioms;
+    broadcast use crate::prelude::prelude_utf8_axioms;
+    let w = v1_window(s);
+    if entry_verdict_str(s) is Accept {
+        lemma_accept_is_terminated(s);
+        let a = entry_verdict_str(s)->Accept_0;
+        match a {
+            V1Addresses::Unknown => { lemma_accepted_unknown_wf(w); },
+            V1Addresses::Tcp4(x) => { lemma_accepted_tcp4_wf(w, x); },
+            V1Addresses::Tcp6(x) => { lemma_accepted_tcp6_wf(w, x); },
+        }
+        assert(wf_line(w, a));
+    }
+    if v1_terminated(s) && exists|a: V1Addresses| wf_line(w, a) {
+        let a = choose|a: V1Addresses| wf_line(w, a);
+        match a {
+            V1Addresses::Unknown => { lemma_unknown_line_accepted(w); },
+            V1Addresses::Tcp4(x) => { lemma_wf_tcp4_accepted(w, x); },
+            V1Addresses::Tcp6(x) => { lemma_wf_tcp6_accepted(w, x); },
+        }
+        assert(line_verdict(w) == V1V::Accept(a));
+        assert(header_verdict(w) == V1V::Accept(a));
+        // the cut after the LF is on a character boundary: the byte before it is ASCII
+        lemma_first_index_bounds(s, 13u8);
+        lemma_accept_shape(w);
+        let n = w.len() as int;
+        assert(w[n - 1] == 10u8) by { assert(w.subrange(n - 2, n)[1] == 10u8); }
+        assert(s[n - 1] == 10u8);
+        assert(str_cut_ok(s, n));
+        assert(entry_verdict_str(s) == V1V::Accept(a));
+    }
 }
